@@ -308,6 +308,77 @@ def writer_paths(ctx, T: ClassInfo, backend: str, entry='serialize', bind_init=T
         emits_all_final = list(emits_all)
         for w in fin_w:
             emits_all_final.extend(w.emits)
+        # positions and widths of every write (prefix writes were checked for contiguity above): each section of the
+        # final buffer starts where the previous one ended, and a slice assignment replaces exactly as many bytes as
+        # it writes (a bytearray slice assignment of another width silently resizes the buffer)
+        problems = ctx.cache.setdefault(('writer_positions', T, backend, entry), [])
+
+        def len_atom(src):
+            src = strip_epoch(src)
+            if src[0] == 'item' and src[2][0] == 'slice' and src[2][1] == ('const', None) and \
+                    src[2][2] == ('const', None):
+                src = strip_epoch(src[1])
+            if src[0] == 'const' and isinstance(src[1], (bytes, bytearray)):
+                return Lin.k(len(src[1]))
+            for a, t in atoms.terms.items():
+                if t[0] == 'pure' and t[1] == 'len' and t[3] and strip_epoch(t[3][0]) == src:
+                    return Lin.atom(a)
+            return None
+
+        def emitted_width(w):
+            total = Lin.k(0)
+            for em in w.emits:
+                if em.kind == 'int':
+                    total = total + Lin.k(em.nbytes)
+                else:
+                    la = len_atom(em.src)
+                    if la is None:
+                        return None
+                    total = total + la
+            return total
+
+        def norm(lin):
+            """replace len(<packed value>) atoms by the number of bytes the value lowers to"""
+            res = Lin.k(lin.const)
+            for a, c in lin.coef.items():
+                t = atoms.terms.get(a)
+                done = False
+                if t is not None and t[0] == 'pure' and t[1] == 'len' and t[3]:
+                    try:
+                        ems = []
+                        lower_bytes_expr(t[3][0], ems, atoms)
+                        if ems and all(e.kind == 'int' for e in ems):
+                            res = res + Lin.k(sum(e.nbytes for e in ems)).scale(c)
+                            done = True
+                        elif not ems:
+                            done = True
+                    except LayoutError:
+                        pass
+                if not done:
+                    res = res + Lin.atom(a).scale(c)
+            return res
+
+        for w in pre_w + final + fin_w:
+            if w.end is None:
+                continue
+            ew = emitted_width(w)
+            if ew is not None and norm(w.end - w.start) != norm(ew):
+                problems.append('line %s: a slice of %r bytes is assigned %r bytes (the buffer is resized)' % (
+                    getattr(w.node, 'lineno', '?'), w.end - w.start, ew))
+        if entry == 'serialize':
+            cp = final[0]
+            pos = cp.end
+            if cp.start != Lin.k(0) or pos is None:
+                problems.append('line %s: the prefix is not copied to the start of the frame' % getattr(
+                    cp.node, 'lineno', '?'))
+            for w in fin_w:
+                if pos is None:
+                    break
+                if norm(w.start) != norm(pos):
+                    problems.append('line %s: a section is written at %r but the previous one ended at %r '
+                                    '(bytes are overwritten or left zero)' % (getattr(w.node, 'lineno', '?'),
+                                                                              w.start, pos))
+                pos = w.end
         # header: first 6 bytes
         header_bits = []
         consumed = 0
